@@ -28,7 +28,9 @@ def get_encoding(fname: str, config_encoding: str = "autodetect") -> str:
         return "ascii"
 
     detected_encoding = chardet.detect(data).get("encoding")
-    if not detected_encoding:
+    # NOTE: chardet only samples the start of large inputs, so it can answer
+    # "ascii" for data which we've just established is *not* all ascii.
+    if not detected_encoding or detected_encoding.lower() == "ascii":
         return "utf-8"
     return detected_encoding
 
